@@ -112,6 +112,10 @@ func init() {
 		x.Add(&Family{Name: "download", Quick: 48, Thor: 640, Run: func(c *Case) { runC08(c, false) }})
 		x.Add(&Family{Name: "download-alias", Quick: 16, Thor: 96, Run: runC08Alias})
 		x.Add(&Family{Name: "download-large", Quick: 16, Thor: 96, Run: func(c *Case) { runC08(c, true) }})
+		// wave d (c08_roots.go): per-account file roots, the real transfer listener, statistics readers polling meanwhile
+		x.Add(&Family{Name: "download-account-root", Quick: 12, Thor: 120, Run: runC08AccountRoot})
+		x.Add(&Family{Name: "download-port", Quick: 6, Thor: 48, Run: runC08Port})
+		x.Add(&Family{Name: "download-stats-polled", Quick: 8, Thor: 64, Run: runC08StatsPolled})
 	}
 }
 
